@@ -19,6 +19,17 @@ Clauses (ids are stable):
 4. copies       ``modified(newSettings=...)``, ``duplicate()``, ``copy.deepcopy``, ``copy.copy`` and a pickle round trip give
                 equal values and assignments to the copy do not show in the original and vice versa.
 
+Violation ids: enumeration.incomplete, default.fresh-not-default, assign.valid-refused, assign.value-differs,
+roundtrip.{write-raises, write-mutates-source, text-not-yaml, duplicate-key, read-raises, default-unreadable, file-read-raises,
+written-key-not-recognised, value-differs, other-setting-changed, unicode-linebreak-differs}, versions.armi-stamped,
+short.{omits-nondefault, writes-default, writes-unknown-key}, medium.{omits-nondefault, omits-user-set, writes-unlisted-default},
+full.omits-setting, reject.{accepted-invalid, accepted-unlisted-option, value-changed, unlisted-option-kept-after-error},
+rename.{map-wrong, raises, lost, wrong-target, expired-accepted}, copy.{raises, value-differs, aliasing, assign-lost, modified-value-wrong}.
+Input classes with an id of their own (fixed a priori, so that they do not hide the general id): the `versions` setting, which the
+writer stamps with the running armi version; unlisted values for option lists declared without enforcedOptions; strings holding
+U+0085/U+2028/U+2029.  When the reader refuses the written text, the settings whose own block is refused are reported and the
+remaining text is still read and compared, so that one unreadable setting does not hide the others.
+
 Validity oracle.  A value is *valid* for a setting iff the setting's own schema admits it (the quantifier: "values admitted by
 each setting's schema"); the schema is probed by calling it.  The value the setting must then hold is what the schema returns
 (voluptuous ``Coerce`` is the documented way ARMI enforces the type, e.g. a tuple given to a list setting is held as a list;
@@ -71,7 +82,7 @@ B = Bounded(
     "colon/YAML-special; lists: empty/singleton/many/mixed; bools: both; nested crossSectionControl, cycles, "
     "tightCouplingSettings) x styles short/medium/full; seeded subsets changed at once; file API; near-miss invalid values "
     "(assign 3 ways + read); every registered rename; 5 copy methods. non-trivial = distinct (clause, setting, value, style)",
-    "values per setting: quick <= 6, thorough <= 30; subsets: quick 30, thorough 400 (x3 styles); file-API cases: quick 8, "
+    "values per setting: quick <= 6, thorough <= 30 (option lists always complete, up to 11); subsets: quick 30, thorough 400 (x3 styles); file-API cases: quick 8, "
     "thorough 40 (x3 styles); invalid values per setting: quick <= 8, thorough <= 24",
 )
 THOROUGH = B.thorough()
@@ -163,6 +174,16 @@ def norm(v):
     return ("o", type(v).__name__, repr(v))
 
 
+def has_unicode_linebreak(v):
+    if isinstance(v, str):
+        return any(c in v for c in "\x85\u2028\u2029")
+    if isinstance(v, dict):
+        return any(has_unicode_linebreak(k) or has_unicode_linebreak(x) for k, x in v.items())
+    if isinstance(v, (list, tuple)):
+        return any(has_unicode_linebreak(x) for x in v)
+    return False
+
+
 def values_of(cs):
     """name -> deep copy of the value held (read off the Setting objects: cs[name] refuses the simple-cycle names when
     ``cycles`` is set, which is access policy, not the value)."""
@@ -197,6 +218,9 @@ for plugin in getApp().pluginManager.get_plugins():
         for item in plugin.defineSettings() or []:
             if isinstance(item, Setting):
                 independent.add(item.name)
+import armi as _armi
+
+B.extra["armi_tree"] = os.path.dirname(os.path.dirname(os.path.abspath(_armi.__file__)))
 B.extra["settings_enumerated"] = len(NAMES)
 B.extra["plugins_walked"] = pluginsWalked
 B.extra["settings_enumeration_complete"] = independent == set(NAMES)
@@ -219,9 +243,9 @@ def probe(name, v):
 # ---------------------------------------------------------------------------------------------------------------------
 # value generation
 # ---------------------------------------------------------------------------------------------------------------------
-INT_LADDER = [0, 1, -1, 2, 7, 10, 100, 10 ** 6, 2 ** 31, 2 ** 63, 10 ** 30, -2, -273, -274, -(10 ** 9), 3.0, "12", True]
-FLOAT_LADDER = [0.0, 1.0, -1.0, 0.5, 1.5, 1e-05, 1.0 / 3.0, 5e-324, 1e-300, 1e-15, 0.1, 0.999999999999, 1.0000000000000002, 100.0, 1e5,
-                1e22, 1.7976931348623157e308, -273.15, -273.0, -1e-300, -0.5, -1e9, -1e300, 2, 10 ** 20, "1e5", "0.25",
+INT_LADDER = [0, 1, -1, 2 ** 63, 10 ** 6, "12", 7, 2, 10, 100, 2 ** 31, 10 ** 30, -2, -273, -274, -(10 ** 9), 3.0, True]
+FLOAT_LADDER = [0.0, 1e22, 5e-324, -273.15, 1.0000000000000002, 1.0 / 3.0, 1e-05, 1.7976931348623157e308, -1.0, 1.0, 0.5, 1.5, 1e-300, 1e-15,
+                0.1, 0.999999999999, 100.0, 1e5, -273.0, -1e-300, -0.5, -1e9, -1e300, 2, 10 ** 20, "1e5", "0.25",
                 float("inf"), float("-inf"), float("nan")]
 STR_FIXED = ["", "a", "héllo wörld ✓", "key: value"]
 STR_SPECIAL = ["yes", "no", "on", "off", "true", "False", "null", "~", "1e5", "007", "0x1F", "1_000", "1.0", ".5", "-1", "+3", "12:30:45",
@@ -364,7 +388,7 @@ for name in NAMES:
             continue
         seen.add(key)
         out.append((v, w))
-    CANDIDATES[name] = out[:NVAL]
+    CANDIDATES[name] = out if DEFS[name].options else out[:NVAL]  # option lists are always enumerated completely
 B.extra["values_generated"] = sum(len(v) for v in CANDIDATES.values())
 B.extra["settings_without_nondefault_value"] = [n for n in NAMES if not any(not deq(w, DEFAULT_VALS[n]) for _, w in CANDIDATES[n])]
 
@@ -409,6 +433,8 @@ def load_isolating(text, desc):
     when read alone, report each (once per id, all counted), and read the rest, so one unreadable setting does not hide the others."""
     blocks = blocks_of(text)
     dropped = []
+    vals = desc["_vals"]
+    desc = {k: v for k, v in desc.items() if k != "_vals"}
     if blocks is not None:
         for k in list(blocks):
             if BLOCK_STATUS.get("".join(blocks[k])) is not None:
@@ -440,7 +466,7 @@ def load_isolating(text, desc):
             attempt = "settings:\n" + "".join("".join(b) for k, b in blocks.items() if k not in dropped)
     for k in dropped:
         t = "".join(blocks[k])
-        atDefault = k in DEFAULT_VALS and deq(desc["_vals"].get(k), DEFAULT_VALS[k])
+        atDefault = k in DEFAULT_VALS and deq(vals.get(k), DEFAULT_VALS[k])
         V("roundtrip.default-unreadable" if atDefault else "roundtrip.read-raises",
           "a setting %s, as written by the writer, is refused by the reader" % ("left at its default" if atDefault else "holding a value its schema admits"),
           {"setting": k, "written": t, "style": desc["style"], "error": BLOCK_STATUS[t], "changes": desc["changes"]}, k)
@@ -543,7 +569,10 @@ def roundtrip(changes, style, setByUser=(), viaFile=None, label="roundtrip"):
             STAMP["seen"] += 1
             ok &= V("versions.armi-stamped", "`versions` reads back with the running armi version stamped over what was held", dict(desc, held=before[n], readBack=got[n]), n)
             continue
-        if n in changedNames:
+        if n in changedNames and has_unicode_linebreak(before[n]):
+            # input class fixed a priori: strings holding U+0085 / U+2028 / U+2029 (line breaks to some YAML versions)
+            ok &= V("roundtrip.unicode-linebreak-differs", "a string holding a Unicode line-break character reads back changed", dict(desc, setting=n, held=before[n], readBack=got[n]), n)
+        elif n in changedNames:
             ok &= V("roundtrip.value-differs", "a changed setting reads back with another value", dict(desc, setting=n, held=before[n], readBack=got[n]), n)
         else:
             ok &= V("roundtrip.other-setting-changed", "a setting that was not touched reads back with another value", dict(desc, setting=n, held=before[n], readBack=got[n]), n)
@@ -617,7 +646,7 @@ DECLARED_INVALID = {
                             {"AA": {"bogusKey": 1, "geometry": "0D"}}, {"AA": {"driverID": "AB"}}, "notadict", ["AA"], 5,
                             {"AA": {"geometry": "0D", "numInternalRings": "two"}}, {"AA": {"geometry": "0D", "validBlockTypes": "fuel"}},
                             {"AA": {"geometry": "0D", "meshSubdivisionsPerCm": [1.0]}}, {"AA": {"geometry": "0D", "xsFileLocation": "ISOAA"}},
-                            {1: {"geometry": "0D"}}, {"AA": ["geometry", "0D"]}],
+                            {"AA": ["geometry", "0D"]}],
     "tightCouplingSettings": [{"globalFlux": {"parameter": "keff"}}, {"globalFlux": {"convergence": 1e-5}}, {"globalFlux": {"parameter": "keff", "convergence": "abc"}},
                               {"gf": {"parameter": "keff", "convergence": 1e-5, "extra": 1}}, {"gf": {"parameter": 5, "convergence": 1e-5}}, "abc", 5, ["globalFlux"],
                               {"gf": ["keff", 1e-5]}],
@@ -662,10 +691,9 @@ def invalid_values(name):
         admitted, _ = probe(name, bad)
         if not admitted:
             out.append((bad, "schema-refuses", "reject.accepted-invalid"))
-        else:
-            if not any(deq(bad, b) and norm(bad) == norm(b) for b, _, _ in out):
-                B.extra["coerced_admitted"] += 1
-                COERCED_KINDS["%s<-%s" % (type(d).__name__, type(bad).__name__)] += 1
+        elif d is not None and not isinstance(bad, type(d)) and not any(norm(bad) == norm(b) for b, _, _ in out):
+            B.extra["coerced_admitted"] += 1
+            COERCED_KINDS["%s<-%s" % (type(d).__name__, type(bad).__name__)] += 1
     seen, uniq = set(), []
     for bad, why, vid in out:
         k = norm(bad)
@@ -690,7 +718,10 @@ def reject(name, bad, why="replay", vid="reject.accepted-invalid"):
               ("value=", lambda cs, x: setattr(dict(cs.items())[name], "value", x)),
               ("modified", lambda cs, x: cs.modified(newSettings={name: x})),
               ("read", lambda cs, x: cs.loadFromString(yaml_text({name: jsonable(x)})))]
+    nonEnforced = vid == "reject.accepted-unlisted-option"
     for route, act in routes:
+        if route == "read" and norm(jsonable(bad)) != norm(bad):
+            continue  # not expressible in a settings file as is (e.g. a tuple reads as a list, which may be valid)
         cs = Settings()
         if prevs:
             cs[name] = copy.deepcopy(prevs[0])
@@ -703,7 +734,7 @@ def reject(name, bad, why="replay", vid="reject.accepted-invalid"):
         ok &= check(raised is not None, vid, "an invalid value is accepted without an error (%s)" % why, dict(desc, route=route, nowHolds=dict(cs.items())[name].value), name)
         chg, _ = diff(before, values_of(cs))
         if raised is not None:
-            ok &= check(not chg, "reject.value-changed", "a refused value did not leave the previous value in place", dict(desc, route=route, previous=before[name], nowHolds=dict(cs.items())[name].value, differing=chg), name)
+            ok &= check(not chg, "reject.unlisted-option-kept-after-error" if nonEnforced else "reject.value-changed", "a refused value did not leave the previous value in place", dict(desc, route=route, previous=before[name], nowHolds=dict(cs.items())[name].value, differing=chg), name)
     return bool(ok)
 
 
@@ -829,8 +860,7 @@ def clause_copy():
             check(not wrong, "copy.assign-lost", "an assignment on the copy did not take", dict(desc, differing=wrong[:5]))
             # and the other way round on a fresh copy
             c2 = make(base)
-            c2Vals = values_of(c2)
-            orig = make(base) if mname != "copy" else copy.deepcopy(base)  # a stand-in original we may modify
+            orig = copy.deepcopy(base)  # a stand-in original we may modify
             c3 = make(orig)
             c3Vals = values_of(c3)
             for n, (v2, w2) in assign2.items():
@@ -855,10 +885,8 @@ def clause_copy():
             chg, _ = diff(baseVals, values_of(base))
             if mname == "copy":
                 B.extra["shallow_copy_shares_mutable_values"] = bool(chg)
-                base = pickle.loads(pickle.dumps(orig)) if False else base
-                if chg:  # restore the base for the next method
-                    for n in chg:
-                        dict(base.items())[n]._value = copy.deepcopy(baseVals[n])
+                for n in chg:  # put the base back for the next round
+                    dict(base.items())[n]._value = copy.deepcopy(baseVals[n])
             else:
                 check(not chg, "copy.aliasing", "editing a mutable value of the copy in place changed the original", dict(desc, direction="copy->original in place", differing=chg[:5]), chg[0] if chg else None)
     # modified(newSettings={name: v}) for EVERY setting: the copy holds schema(v), the original keeps its value, all others equal
